@@ -188,6 +188,15 @@ class SeqDict:
         self.label = label
 
 
+class UnknownAttr:
+    """an attribute of a symbolic reference that the contract does not know (e.g. a flag that a refactoring added): its value is
+    read from a ghost heap attr -> (reference -> Bool), arbitrary at function entry (state left by earlier calls) and updated by
+    stores; only its truth value can be used"""
+    def __init__(self, attr, term):
+        self.attr = attr
+        self.term = term
+
+
 class SymSeq:
     """symbolic sequence: length (z3 Int or int) + element function idx(z3 Int) -> value"""
     def __init__(self, length, elem, label="seq"):
@@ -751,7 +760,15 @@ class Engine:
             if "none" in v.attrs:
                 return z3.Not(v.attrs["none"])
             return True
+        if isinstance(v, UnknownAttr):
+            return z3.Select(self.ghost_heap(v.attr), v.term)
         raise OutsideSubset("truth of %r" % (v,))
+
+    def ghost_heap(self, attr):
+        hp = self.ghost.setdefault("__ghost_heap__", {})
+        if attr not in hp:
+            hp[attr] = z3.Const("heap_{}!{}".format(attr, next(self.fresh_counter)), z3.ArraySort(z3.IntSort(), z3.BoolSort()))
+        return hp[attr]
 
     def branch(self, v, label):
         t = self.truth(v)
@@ -1177,6 +1194,10 @@ class Engine:
             hook = self.attr_hooks.get((base.sort, attr))
             if hook:
                 return hook(self, base)
+            if base.sort == "Elem" and not attr.startswith("__"):
+                self.used_assumptions.add("unknown attributes of symbolic elements are arbitrary Boolean state at function entry "
+                                          "(ghost heap), updated by stores")
+                return UnknownAttr(attr, base.term)
             raise OutsideSubset("attribute {} of symbolic {}".format(attr, base.sort))
         if isinstance(base, ClassRef):
             fr = self.resolve_method(base.module, base.name, attr)
@@ -1710,6 +1731,9 @@ class Engine:
             attr = self.mangle(target.attr, env)
             if isinstance(base, Obj):
                 base.fields[attr] = v
+            elif isinstance(base, Ref) and base.sort == "Elem" and attr not in base.attrs and (isinstance(v, bool) or (is_sym(v) and z3.is_bool(v))):
+                hp = self.ghost_heap(attr)
+                self.ghost["__ghost_heap__"][attr] = z3.Store(hp, base.term, to_z3(v))
             else:
                 for hook in self.setattr_hooks:
                     if hook(self, base, attr, v) is not NotImplemented:
@@ -1915,6 +1939,7 @@ class Engine:
         old_snapshot = Env(None, dict(env.vars))
         for name, typ in lc.modifies.items():
             env.vars[name] = self.make(typ, name)
+        self.ghost.pop("__ghost_heap__", None)      # stores of earlier iterations: the ghost heap is arbitrary at the cut
         k = self.fresh(lc.index, "Int")
         which = self.choose(2, tag)
         if which == 0:
@@ -1980,6 +2005,7 @@ class Engine:
             self.oblige("{}/establish/inv{}[{}]".format(tag, i, lab or " ".join(text.split())[:40]), self.ev_clause(text, env))
         for name, typ in lc.modifies.items():
             env.vars[name] = self.make(typ, name)
+        self.ghost.pop("__ghost_heap__", None)      # stores of earlier iterations: the ghost heap is arbitrary at the cut
         for cl in lc.invariant:
             lab, text = clause_parts(cl)
             self.assume(to_z3(self.ev_clause(text, env)))
